@@ -52,7 +52,7 @@ static char vf_devname[2] = "d";
 
 static __u16 vf_disk_state;		/* THE DISK: s_state of the on-disk primary superblock */
 static int vf_next;			/* next expected stage */
-static int vf_first_flush_done, vf_nflush;
+static int vf_first_flush_done, vf_nflush, vf_flush1_failed;
 static int vf_final_write;		/* the close of new_fs rewrote the primary superblock */
 static int vf_closed_new, vf_freed_old, vf_freed_new;
 static blk64_t vf_written_size;
@@ -64,6 +64,11 @@ static errcode_t vf_stage(int id)
 	vf_next = id + 1;
 	if (id == ST_FIX_UNINIT1)
 		vf_next = ST_RESIZE_GD;	/* ext2fs_dup_handle is the real function, not a stage stub */
+#ifdef FLUSH_FAULT
+	if (id > ST_FLUSH1)
+		PROP(!vf_flush1_failed, "no stage runs after the flush that makes the error flag durable has failed");
+	ASSUME(!vf_flush1_failed);	/* FLUSH_FAULT query only: report that one label, not its consequences */
+#endif
 	if (id > ST_FLUSH1)
 		PROP((vf_disk_state & EXT2_ERROR_FS) != 0,
 		     "on-disk primary superblock carries the error flag whenever a stage after the first flush runs");
@@ -91,8 +96,10 @@ errcode_t ext2fs_flush(ext2_filsys fs)
 		vf_first_flush_done = 1;
 		PROP(fs == &vf_fs, "the first flush is of the handle passed in");
 #ifdef FLUSH_FAULT
-		if (e)
+		if (e) {
+			vf_flush1_failed = 1;
 			return e;
+		}
 #else
 		(void) e;
 #endif
@@ -218,9 +225,8 @@ int main(void)
 	/* ASSUME: resize flags without the debug-print bits (they only select printf calls) */
 	ASSUME((IN.flags & ~(RESIZE_PERCENT_COMPLETE | RESIZE_VERBOSE | RESIZE_ENABLE_64BIT | RESIZE_DISABLE_64BIT)) == 0);
 	ASSUME(IN.itab_flush_old <= 1 && IN.itab_flush_new <= 1 && IN.close_wrote <= 1 && IN.jnl_dirty <= 1 && IN.csum_dirty <= 1);
-#ifndef FLUSH_FAULT
-	/* ASSUME: the first ext2fs_flush() (the one that makes the flag durable) succeeds; -DFLUSH_FAULT drops this */
-#endif
+	/* ASSUME: the first ext2fs_flush() (the one that makes the flag durable) succeeds.  Query FLUSH_FAULT drops this
+	 * assumption: resize_fs() ignores that call's return value, so the query FAILS on the unchanged tree (reported finding) */
 	/* BOUND: geometry is irrelevant to the protocol: 2 groups, 1 KiB blocks, one descriptor block, no bitmaps loaded */
 	vf_sb.s_magic = EXT2_SUPER_MAGIC;
 	vf_sb.s_state = IN.s_state;
@@ -262,8 +268,9 @@ int main(void)
 			PROP(vf_disk_state == IN.s_state && vf_sb.s_state == IN.s_state && vf_next == 1 && !(vf_fs.flags & EXT2_FLAG_DIRTY),
 			     "refused before the first write: nothing changed on disk or in the caller's superblock");
 		} else {
-			PROP((vf_disk_state & EXT2_ERROR_FS) != 0 || (vf_final_write && vf_next == NSTAGE),
-			     "failure: the error flag is still on disk (unless only the final close failed after its write)");
+			PROP((vf_disk_state & EXT2_ERROR_FS) != 0 || (vf_final_write && vf_next == NSTAGE) ||
+			     (vf_flush1_failed && vf_next == ST_FIX_UNINIT1 && vf_disk_state == IN.s_state),
+			     "failure: the error flag is still on disk (unless only the final close failed after its write, or nothing ran after a failed first flush)");
 			PROP((vf_sb.s_state & EXT2_ERROR_FS) != 0,
 			     "failure: the caller's in-memory superblock keeps the flag (main() closes that handle next)");
 		}
